@@ -70,7 +70,7 @@ def default_transparent(fx, vocabulary, max_blocks=MAX_BLOCKS):
     return transparent
 
 
-def inline_fn(fx, f, transparent, depth=2):
+def inline_fn(fx, f, transparent, depth=2, thread=True):
     """a new Fn for f with transparent callees spliced in (recursively up to `depth`); f itself when nothing applies"""
     j = None
     inlined = []
@@ -133,10 +133,222 @@ def inline_fn(fx, f, transparent, depth=2):
             changed = True
     if j is None:
         return f
+    threaded = thread_jumps(j, f.types) if thread else 0
     nf = Fn(f.name, j, f.types)
+    nf.threaded = threaded
     nf.inlined = inlined
     nf.splices = splices
     return nf
+
+
+
+# ----------------------------------------------------------------------------------------------------------------
+# jump threading on views
+#
+# Splicing a helper that returns Option / Result / bool creates the classic correlated-branch shape
+#     helper:  if c { r = Some(x) } else { r = None }      caller:  match r { Some(..) => A, None => B }
+# (and `helper()?` = switch on the Ok/Err the helper just built).  The path, dominance and guard queries are not
+# value-sensitive, so they would see the infeasible path  "r = Some .. -> B".  For each switch on the variant (or truth)
+# of a local whose every definition builds a known variant, the blocks between a definition and the switch are
+# duplicated and the copy of the switch jumps straight to that variant's target.  Only views are rewritten.
+from .core import TRY_BRANCH, FROM_RESIDUAL
+
+_TRY_MAP = {'Ok': 'Continue', 'Some': 'Continue', 'Err': 'Break', 'None': 'Break'}
+MAX_CORRIDOR = 24
+MAX_ADDED = 600
+
+
+def _succs(t):
+    k = t['k']
+    if k == 'goto':
+        return [t['target']]
+    if k == 'switch':
+        return [b for _, b in t['targets']] + [t['otherwise']]
+    if k in ('call', 'drop', 'assert'):
+        return [t['target']] if t.get('target') is not None else []
+    return []
+
+
+def _retarget(t, m):
+    k = t['k']
+    if k == 'goto':
+        t['target'] = m.get(t['target'], t['target'])
+    elif k == 'switch':
+        t['targets'] = [[v, m.get(b, b)] for v, b in t['targets']]
+        t['otherwise'] = m.get(t['otherwise'], t['otherwise'])
+    elif k in ('call', 'drop', 'assert'):
+        if t.get('target') is not None:
+            t['target'] = m.get(t['target'], t['target'])
+
+
+def _whole_local(o):
+    p = o.get('cp') or o.get('mv') if isinstance(o, dict) else None
+    if p is not None and not p['p']:
+        return p['l']
+    return None
+
+
+def _defs_of(blocks, L):
+    out = []
+    for bb, b in enumerate(blocks):
+        for st in b['stmts']:
+            if st['k'] in ('assign', 'setdiscr') and st['lhs']['l'] == L:
+                out.append((bb, 'stmt', st))
+        t = b['term']
+        if t['k'] == 'call' and t.get('dest') is not None and t['dest']['l'] == L:
+            out.append((bb, 'call', t))
+    return out
+
+
+def _root_defs(blocks, types, L, depth=0, seen=()):
+    """[(block, variant name | 'true' | 'false')] covering every definition of local L, or None"""
+    if depth > 5 or L in seen:
+        return None
+    res = []
+    ds = _defs_of(blocks, L)
+    if not ds:
+        return None
+    for bb, kind, d in ds:
+        if kind == 'stmt':
+            if d['k'] != 'assign' or d['lhs']['p']:
+                return None
+            rv = d['rv']
+            if rv['k'] == 'agg' and rv.get('ak') == 'adt' and rv.get('variant'):
+                res.append((bb, rv['variant']))
+            elif rv['k'] == 'use' and 'c' in rv['o']:
+                c = rv['o']['c']
+                if c.get('cpath') == 'error::OK' or 'error::OK' in c.get('txt', ''):
+                    res.append((bb, 'Ok'))
+                elif types[c['t']] == 'bool' and c.get('v') in (0, 1):
+                    res.append((bb, 'true' if c['v'] == 1 else 'false'))
+                else:
+                    return None
+            elif rv['k'] == 'use' and _whole_local(rv['o']) is not None:
+                sub = _root_defs(blocks, types, _whole_local(rv['o']), depth + 1, seen + (L,))
+                if sub is None:
+                    return None
+                res += sub
+            else:
+                return None
+        else:
+            c = callee_of(d)
+            if c in FROM_RESIDUAL:
+                res.append((bb, 'Err' if 'Result' in c else 'None'))
+            elif c in TRY_BRANCH and len(d['args']) == 1 and _whole_local(d['args'][0]) is not None:
+                sub = _root_defs(blocks, types, _whole_local(d['args'][0]), depth + 1, seen + (L,))
+                if sub is None:
+                    return None
+                res += [(b2, _TRY_MAP.get(v)) for b2, v in sub]
+                if any(v is None for _, v in res):
+                    return None
+            else:
+                return None
+    return res
+
+
+def _switch_info(blocks, types, S):
+    """(scrutinee local, {variant name: target}) for a switch on the variant of a whole local (or on a bool local)"""
+    t = blocks[S]['term']
+    if t['k'] != 'switch':
+        return None
+    d = _whole_local(t['discr'])
+    if d is None:
+        return None
+    listed = dict((v, b) for v, b in t['targets'])
+    # discriminant read in this block?
+    for st in blocks[S]['stmts']:
+        if st['k'] == 'assign' and st['lhs']['l'] == d and not st['lhs']['p'] and st['rv']['k'] == 'discr':
+            pl = st['rv']['p']
+            if pl['p']:
+                return None
+            tgt = {}
+            for val, name in st['rv'].get('variants') or []:
+                tgt[name] = listed.get(val, t['otherwise'])
+            return pl['l'], tgt
+    if types[t['discr'].get('cp', t['discr'].get('mv'))['t']] == 'bool':
+        # `switchInt(move _b)`: the local must not be redefined in this block after ... (it is defined elsewhere)
+        if any(st['k'] == 'assign' and st['lhs']['l'] == d for st in blocks[S]['stmts']):
+            return None
+        return d, {'false': listed.get(0, t['otherwise']), 'true': listed.get(1, t['otherwise'])}
+    return None
+
+
+def thread_jumps(j, types):
+    blocks = j['blocks']
+    added = 0
+    done = set()
+    for _round in range(4):
+        progress = False
+        for S in range(len(blocks)):
+            if S in done:
+                continue
+            info = _switch_info(blocks, types, S)
+            if info is None:
+                continue
+            L, tgt = info
+            roots = _root_defs(blocks, types, L)
+            if not roots or any(v not in tgt for _, v in roots):
+                continue
+            if len({v for _, v in roots}) < 2 and len(roots) < 2:
+                # a single definition: the switch is decided outright if that definition dominates it; handled below as well
+                pass
+            done.add(S)
+            chain_blocks = {b for b, _ in roots}
+            for BD, V in roots:
+                if BD == S:
+                    continue
+                # corridor: blocks strictly between BD and S
+                fwd = set()
+                st = [x for x in _succs(blocks[BD]['term'])]
+                while st:
+                    x = st.pop()
+                    if x in fwd or x == S:
+                        continue
+                    fwd.add(x)
+                    st.extend(_succs(blocks[x]['term']))
+                preds = {}
+                for b in range(len(blocks)):
+                    for x in _succs(blocks[b]['term']):
+                        preds.setdefault(x, []).append(b)
+                back = set()
+                st = list(preds.get(S, []))
+                while st:
+                    x = st.pop()
+                    if x in back or x == S:
+                        continue
+                    back.add(x)
+                    st.extend(preds.get(x, []))
+                C = fwd & back
+                if BD in C or (C & (chain_blocks - {BD})) or len(C) > MAX_CORRIDOR or added + len(C) + 1 > MAX_ADDED:
+                    continue
+                if S not in _reach_from(blocks, BD):
+                    continue
+                m = {}
+                for b in sorted(C | {S}):
+                    m[b] = len(blocks)
+                    blocks.append(copy.deepcopy(blocks[b]))
+                    added += 1
+                for b in C:
+                    _retarget(blocks[m[b]]['term'], m)
+                sc = blocks[m[S]]
+                sc['term'] = {'k': 'goto', 'target': tgt[V], 'at': sc['term'].get('at'), 'exp': sc['term'].get('exp', False), 'threaded': V}
+                _retarget(blocks[BD]['term'], m)
+                progress = True
+        if not progress:
+            break
+    return added
+
+
+def _reach_from(blocks, a):
+    seen = set()
+    st = [a]
+    while st:
+        x = st.pop()
+        for t in _succs(blocks[x]['term']):
+            if t not in seen:
+                seen.add(t)
+                st.append(t)
+    return seen
 
 
 _VOCAB = [None]
@@ -169,9 +381,10 @@ def rule_vocabulary():
 class View:
     """lazy cache of inlined views of functions under one transparency predicate"""
 
-    def __init__(self, fx, vocabulary=(), depth=2, max_blocks=MAX_BLOCKS):
+    def __init__(self, fx, vocabulary=(), depth=2, max_blocks=MAX_BLOCKS, use_global=True):
+        """use_global=False: only `vocabulary` stays opaque - every other local callee is spliced in"""
         self.fx = fx
-        self.transparent = default_transparent(fx, set(vocabulary) | rule_vocabulary(), max_blocks)
+        self.transparent = default_transparent(fx, set(vocabulary) | (rule_vocabulary() if use_global else set()), max_blocks)
         self.depth = depth
         self._c = {}
 
@@ -186,3 +399,36 @@ class View:
     def inlined_into(self, name):
         v = self(name)
         return list(getattr(v, 'inlined', []))
+
+
+def view_writes(fx, V, tracked, base=None):
+    """A-WRITE over views: {function: write events} where unnamed helpers are dropped and what they write appears in the
+    functions that call them (at the splice).  `base` = awrite.all_field_writes result for the original functions, reused
+    for functions whose view is the function itself."""
+    from . import awrite
+    base = base if base is not None else awrite.all_field_writes(fx, 'state', tracked)
+    out = {}
+    for fn, f0 in fx.fns.items():
+        if V.transparent(fn) and fx.callers().get(fn):
+            continue
+        # a view is needed only if some callee (depth <= V.depth) is a helper
+        need = False
+        frontier = {fn}
+        for _ in range(V.depth):
+            nxt = set()
+            for g in frontier:
+                for c in fx.callgraph().get(g, ()):
+                    if c in fx.fns and c != fn and V.transparent(c):
+                        if base.get(c):
+                            need = True      # the helper writes tracked state: that write belongs to this function's view
+                        nxt.add(c)
+            frontier = nxt
+        if not need:
+            if base.get(fn):
+                out[fn] = base[fn]
+            continue
+        v = V(fn)
+        ws = awrite.field_writes(fx, v, tracked) if v is not f0 else base.get(fn, [])
+        if ws:
+            out[fn] = ws
+    return out
